@@ -15,6 +15,12 @@ from contracts import core
 from props import api
 
 
+def req_pid(e):
+    """Property a callee precondition belongs to (by its label)."""
+    lab = str(e[2])
+    return "C18" if lab.startswith("Inv.node") else "C06" if lab.startswith("Inv.cover") else "C05" if lab.startswith("forced-") else "C11"
+
+
 def stat_value(st, fn):
     """What _get_file_metadata() returns in state st."""
     m = st.sel("Meta", fn)
@@ -159,7 +165,7 @@ def check_flush(eng, prover, cname, out):
         prover.goal(f"C10/{base}/balance:locks", x, x.g["Depth"] == pre.g["Depth"], info=ctx)
         for e in x.events:
             if e[0] == "requires":
-                prover.goal(f"C11/{base}/callee-requires:{e[2]}", x, e[3], info=ctx)
+                prover.goal(f"{req_pid(e)}/{base}/callee-requires:{e[2]}", x, e[3], info=ctx)
         saved = any(e[0] == "save" for e in x.events)
         # C05: nothing is written while still buffered (unless forced)
         prover.goal(f"C05/{base}/noop-while-buffered:no-write", x,
@@ -271,9 +277,36 @@ def cover_exit(eng, prover, base, x, cname, fn, g0, ctx):
         prover.goal(f"C06/{base}/Inv.cover:{nm}", x, z3.Implies(nofault, inv_cover(eng, x, cname, f)), info=ctx)
 
 
+def check_buffer_guarded(eng, prover, base, x, cname, ctx):
+    """Check-then-act atomicity on the buffer (C06, sufficient condition: two objects on one file must not both
+    decide "not buffered yet" and overwrite each other's entry): from its FIRST access to the class's _buffer / an
+    entry up to its LAST WRITE to them, the call holds the class's buffer lock without releasing it.  Stated for
+    _load_from_buffer / _save_to_buffer, where it holds for both strategies (trailing lock-free reads, the
+    shared-memory _flush and the registry are deliberately outside this discipline: DESIGN.md C13)."""
+    info = eng.R["classes"][cname]
+    if not (eng.mode.get("threads") and info["supports_threading"]):
+        return
+    WRITES = ("setitem", "delitem", "pop", "popitem", "clear", "update", "setdefault")
+    acc = [i for i, e in enumerate(x.events) if e[0] == "buffer-access"]
+    wr = [i for i in acc if x.events[i][2] in WRITES]
+    if not wr:
+        prover.structural(f"C06/{base}/guarded:buffer-state", True, x, ctx)
+        return
+    acc = [i for i in acc if i <= wr[-1]]
+    lid = F("bufferlock", IntS, IntS)(z3.IntVal(smt.tid_of(cname)))
+    held = []
+    for i in range(acc[0], acc[-1] + 1):
+        d = x.evdepth[i]
+        if d is not None:
+            held.append(z3.Select(d, lid) >= 1)
+    prover.goal(f"C06/{base}/guarded:buffer-check-then-write-under-one-hold-of-the-buffer-lock", x, smt.and_(held),
+                info=dict(ctx, n_accesses=len(acc)))
+
+
 def common_exit_checks(eng, prover, base, pre, x, res, s, cname, fn, g0, ctx, forced_possible=True):
     bp, bq = Buf(eng, pre, cname), Buf(eng, x, cname)
     cover_exit(eng, prover, base, x, cname, fn, g0, ctx)
+    check_buffer_guarded(eng, prover, base, x, cname, ctx)
     flushed = any(e[0] in ("flush-buffer", "flush-buffer-error") for e in x.events)
     if not flushed:
         prover.goal(f"C15/{base}/accounting:size-tracks-this-file", x,
@@ -291,7 +324,7 @@ def common_exit_checks(eng, prover, base, pre, x, res, s, cname, fn, g0, ctx, fo
     prover.goal(f"C10/{base}/balance:locks", x, x.g["Depth"] == pre.g["Depth"], info=ctx)
     for e in x.events:
         if e[0] == "requires":
-            prover.goal(f"C11/{base}/callee-requires:{e[2]}", x, e[3], info=ctx)
+            prover.goal(f"{req_pid(e)}/{base}/callee-requires:{e[2]}", x, e[3], info=ctx)
     return flushed
 
 
@@ -509,7 +542,7 @@ def check_backend_context(eng, prover, cname, out):
                 cover_exit(eng, prover, base, c, cname, fn, s.other_file, ctx)
                 for e in c.events:
                     if e[0] == "requires":
-                        prover.goal(f"C11/{base}/callee-requires:{e[2]}", c, e[3], info=ctx)
+                        prover.goal(f"{req_pid(e)}/{base}/callee-requires:{e[2]}", c, e[3], info=ctx)
                 prover.goal(f"C15/{base}/exit:context-stack-restored", c, c.sel("Cell", stack_addr) == stack0, info=ctx)
                 prover.goal(f"C15/{base}/exit:count-restored", c, as_int(c.rec(ctx_obj).fields["_count"]) == cnt0, info=ctx)
                 flushed = any(e[0] in ("flush-buffer", "flush-buffer-error") and not z3.is_true(z3.simplify(e[2]))
@@ -541,6 +574,6 @@ def check_set_capacity(eng, prover, cname, out):
         cover_exit(eng, prover, base, x, cname, fn, s.other_file, {"path": k})
         for e in x.events:
             if e[0] == "requires":
-                prover.goal(f"C11/{base}/callee-requires:{e[2]}", x, e[3], info={"path": k})
+                prover.goal(f"{req_pid(e)}/{base}/callee-requires:{e[2]}", x, e[3], info={"path": k})
     out["paths"] += k
     out["functions"][fi.qualname] = fi.sha()
